@@ -118,6 +118,34 @@ def r_ndarray(c):
              "integers-keyed-like-python-ints", where,
              "no dtype-feeding override: pytools keys numpy integers like Python ints",
              nontrivial=False)
+    # ... and so are numpy real and complex floats (np.float64 IS a Python float;
+    # less(x, 2.0) == less(x, np.float64(2.0)), same hash): tabulated by case-split
+    # evaluation of the override: in a case where the scalar is a np.floating (resp.
+    # np.complexfloating) of ordinary width, the one thing done is
+    # update_for_float(h, float(k)) (resp. update_for_complex(h, complex(k)))
+    if own is not None and _feeds_dtype(own):
+        from pta import symrun
+        kh_, k_ = own.args.args[1].arg, own.args.args[2].arg
+        try:
+            tab = symrun.table([s_ for s_ in own.body if not isinstance(
+                s_, (ast.Import, ast.ImportFrom))], lambda t: None)
+        except AnalysisError:
+            tab = {}
+        for cls_, upd, conv, what in (
+                ("np.floating", "update_for_float", "float", "floats"),
+                ("np.complexfloating", "update_for_complex", "complex", "complex numbers")):
+            hit = False
+            for cs, ev in tab.items():
+                cs = dict(cs)
+                if any(v and cls_ in k and "isinstance" in k for k, v in cs.items()) \
+                        and [e for e in ev if e[0] != "exit"] == [
+                            ("call", f"self.{upd}", (kh_, f"{conv}({k_})"))]:
+                    hit = True
+            c.check(hit, "R18-NDARRAY", "PytatoKeyBuilder.update_for_numpy_scalar",
+                    f"{what.split()[0]}-keyed-like-python-{conv}", m.loc(m.module_of(own), own),
+                    f"numpy {what} are keyed with their dtype and bytes: less(x, 2.0) and "
+                    "less(x, np.float64(2.0)) (equal graphs, equal hashes) get different "
+                    "persistent keys")
     # contents in logical (C) order: the bytes must not depend on the memory layout
     tb = [x for x in ast.walk(fd) if isinstance(x, ast.Call) and isinstance(x.func, ast.Attribute)
           and x.func.attr == "tobytes"]
